@@ -209,7 +209,15 @@ func (c *Compiler) collectFunctionDeclarations(node ast.Node) error {
 }
 
 // compile the given AST node and all its children.
-func (c *Compiler) compile(node ast.Node) error {
+func (c *Compiler) compile(node ast.Node) (err error) {
+	// Every compile error names the place it is about: an error that was made
+	// where no position is known (the symbol table) gets the position of the
+	// node that was being compiled
+	defer func() {
+		if err != nil && node != nil && !strings.Contains(err.Error(), "\n\nlocation: ") && !strings.Contains(err.Error(), ", line ") {
+			err = c.formatError(strings.TrimPrefix(err.Error(), "compile error: "), node.Token().StartPosition)
+		}
+	}()
 	switch node := node.(type) {
 	case *ast.Nil:
 		if err := c.compileNil(); err != nil {
